@@ -44,6 +44,18 @@ Theorem isolated_full : forall K M pts radii sel fr j,
 Proof. exact isolated_full_row. Qed.
 Print Assumptions isolated_full.
 
+(* Two overlapping spheres, PARTIAL: for a point ON atom a's unit sphere, "strictly inside atom b" is exactly the
+   half-space condition of the analytic cap, cos(angle to the axis a->b) > (r_a^2 + d^2 - r_b^2)/(2 r_a d), written
+   without division.  Full statement (not proved): |count/n - (1 + cos_cap)/2| <= quadrature error of the golden
+   spiral; what is missing is a discrepancy bound for the float32 golden-spiral point set - the correspondence
+   measures it instead (<= 2 points along the y axis, <= 0.4*sqrt(n)+2 points in general). *)
+Theorem two_sphere_cap_partial : forall M (a b : atom) (s : vec),
+  0 < M -> norm2 s = M * M ->
+  inside M (centred M a s) b =
+  (M * (snd a * snd a + d2 (fst a) (fst b) - snd b * snd b) <? 2 * snd a * dot s (vsub (fst b) (fst a))).
+Proof. exact cap_criterion. Qed.
+Print Assumptions two_sphere_cap_partial.
+
 (* ---- additive ---- *)
 
 (* Residue mode is the sum of atom mode over each residue's selected atoms (same selection, same frame). *)
